@@ -195,7 +195,7 @@ def part_enum(chk, fams):
             completed = n
         ENUM_DONE.append((name, set(alpha), completed))
         chk.part("enum:%s" % name, alphabet=esc(alpha), bound_completed="all strings of length <= %d" % completed)
-    chk.cov["bound_completed"] = "; ".join("%s: all strings <= %d" % (n, m) for n, _, m in ENUM_DONE)
+    chk.cov["bound_completed"] = "; ".join(("%s: all strings <= %d" % (n, m)) if m >= 0 else ("%s: not run" % n) for n, _, m in ENUM_DONE)
 
 
 TEMPLATES = [
@@ -370,6 +370,9 @@ def part_templates(chk, texts):
     strs = list(TEMPLATES)
     strs += M.negative_cases()
     stride = 6 if chk.quick else 1
+    if chk.quick and chk.out_of_time(0.5):
+        chk.cap("templates: only every %d-th by-construction text (machine too slow)" % (stride * 8))
+        stride *= 8
     strs += [t for i, (t, _, _) in enumerate(texts) if i % stride == 0]
     seen = set()
     uniq = []
@@ -396,6 +399,7 @@ SUB48 = bytes(sorted(set(b'()[]{}"`a1:#\\@\';~,| \n\r\t\0\v\f-+.ex_&rnuUzZ9G/') 
 def run_bytes_items(chk, variant, part, items, chunk):
     res = run_batch(variant, D_BYTES, items, chunk=chunk, timeout=900)
     total = 0
+    reported = 0
     shapes = set()
     for it, (st, text) in zip(items, res):
         if st == "OK" and text.startswith("ok\t"):
@@ -406,8 +410,12 @@ def run_bytes_items(chk, variant, part, items, chunk):
         if st == "OK" and text.startswith("DIFF\t"):
             _, kind, hx, detail = text.split("\t", 3)
             s = bytes.fromhex(hx)
-            chk.violation(sig="%s:%s:%s" % (part, kind, hx), what="input %s: %s" % (jstr(s), detail.replace("\\x0a", " | ")),
-                          replay_text=replay_chunklaw(s), replay_cmd="janet <this file>")
+            reported += 1
+            if reported <= 3:
+                chk.violation(sig="%s:%s:%s" % (part, kind, hx), what="input %s: %s" % (jstr(s), detail.replace("\\x0a", " | ")),
+                              replay_text=replay_chunklaw(s), replay_cmd="janet <this file>")
+            else:
+                chk.violations += 1
             continue
         if st in ("CRASH", "TIMEOUT"):
             chk.violation(sig="%s:%s:%s" % (part, st.lower(), re.sub(r"\s+", "_", it)[:60]),
